@@ -141,3 +141,64 @@ def layout_program(rnd, n=60, nfiles=1):
         files[-1].append(lab(f"l{nlab}", x=(nfiles > 1)))
         files[-1].append(insn("nop"))
     return files
+
+
+def lazy_program(rnd, own_link=False, nlabels=4, nstmts=14):
+    """Programs around the lazy-evaluation engine: labels behind blocks whose size is a symbol defined later ("pending"), aliases of
+    labels and label differences defined BEFORE or AFTER the labels, uses with coefficients other than +1 (k*x, a - x, 10 - d),
+    the definitions of the pending sizes at random places, and optionally the program's own `.link` at the start, in the middle or
+    at the end with an expression whose dependence on the base cancels.  Values stay small; everything is linear."""
+    labs = [f"l{i}" for i in range(1, nlabels + 1)]
+    L = lambda: sym(rnd.choice(labs))
+    stmts = []
+    defs = []            # definitions to be scattered: (name, expr)
+    n_pending = rnd.randrange(0, 3)
+    for i in range(n_pending):
+        defs.append(const(f"n{i + 1}", num(rnd.choice([0, 1, 2, 4, 6]))))
+    a, b = rnd.sample(labs, 2)
+    defs.append(const("x", sym(a)))                                    # alias of a label
+    defs.append(const("d", bin_("-", sym(b), sym(a))))                 # label difference
+    if rnd.random() < 0.5:
+        defs.append(const("e", bin_("+", sym("d"), num(2))))
+    body = []
+    li = 0
+    for _ in range(nstmts):
+        r = rnd.random()
+        if r < 0.22 and li < nlabels:
+            body.append(lab(labs[li]))
+            li += 1
+        elif r < 0.30:
+            body.append(insn("nop"))
+        elif r < 0.38:
+            body.append({"k": "blkw", "e": num(rnd.randrange(0, 3))})
+        elif r < 0.50 and n_pending:
+            body.append({"k": "blkw", "e": sym(f"n{rnd.randrange(1, n_pending + 1)}")})
+        elif r < 0.58:
+            body.append(word(L()))
+        elif r < 0.66:
+            body.append(insn("movi", bin_("-", L(), sym("x"))))
+        elif r < 0.72:
+            body.append(insn("movi", bin_("-", sym("x"), L())))
+        elif r < 0.78:
+            body.append(word(bin_("-", num(10), sym("d")), bin_("*", num(3), sym("d"))))
+        elif r < 0.84:
+            body.append(insn("movr", rnd.choice([L(), sym("x")])))
+        elif r < 0.90:
+            body.append(insn("mova", bin_("-", bin_("+", L(), L()), sym("x"))))
+        elif r < 0.95 and any(s["k"] == "const" and s["n"] == "e" for s in defs):
+            body.append(word(bin_("-", sym("e"), sym("d"))))
+        else:
+            body.append(word(bin_("-", bin_("*", num(2), L()), bin_("+", sym("x"), sym("x")))))
+    while li < nlabels:
+        body.append(lab(labs[li]))
+        body.append(insn("nop"))
+        li += 1
+    for dd in defs:
+        body.insert(rnd.randrange(0, len(body) + 1), dd)
+    if own_link:
+        K = num(rnd.choice([1024, 8192, 16384]))
+        forms = [K, bin_("-", K, sym("d")), bin_("+", K, bin_("-", sym(b), sym(a))), bin_("-", bin_("-", bin_("+", K, bin_("*", num(2), sym(b))), sym(a)), sym(a)),
+                 bin_("+", K, bin_("-", sym("x"), sym(a))), bin_("-", K, bin_("+", sym("d"), sym("d")))]
+        pos = rnd.choice([0, len(body) // 2, len(body)])
+        body.insert(pos, {"k": "link", "e": rnd.choice(forms)})
+    return [body]
